@@ -58,6 +58,8 @@ Inv_C01(e) == /\ (ValidEnc(e) => NoCrash(e) /\ e.err.nil /\ e.out = Mnemonic(e.e
               \* ... and stays that sentence: the harness re-inspects retained results after later calls
               /\ (e.op = "Recheck" /\ e.kind = "string" => e.same)
               /\ e.op # "Crash"               \* the process died inside the library while entropies were being encoded
+              \* the lists the sentences are made of survive `make update-wordlist` on the canonical upstream
+              /\ (e.op = "Gen" /\ Has(e, "golden") /\ e.golden => e.compiles /\ e.words = List(e.lang) /\ e.words = e.committed)
 
 Inv_C05(e) ==
     /\ ValidEnc(e) =>
@@ -113,6 +115,7 @@ Inv_C15(e) ==
                 /\ \E t \in UnknownTokens(e.in, e.lang) : HasInfix(e.err.msg, t))
         /\ (d # {} => ~e.err.nil)
         /\ (e.err.nil => d = {})
+InvE_C15(e) == Has(e, "echo_same") => e.echo_same        \* the same call, made again after other calls, says the same (verdict and error text)
 InvN_C15(e) == e.op = "Check" /\ IsSupported(e.lang) /\ e.err.nil => WellFormed(e.in, e.lang)     \* nil only for valid sentences, whatever the spelling
 InvS_C15(e) == e.op = "Sweep" =>                \* a nil error only for valid sentences: of 2048 last words exactly the predicted ones
     {e.accepted[i] : i \in 1..Len(e.accepted)} \subseteq SweepPredicted(e)
@@ -218,6 +221,7 @@ Inv_C13(e) ==
     /\ (e.op = "ByEntropy" => e.ent_same)
     /\ (Has(e, "in_same") => e.in_same)                      \* argument strings are not written through
     /\ (e.op = "Recheck" => e.same)
+    /\ (Has(e, "echo_same") => e.echo_same)
     /\ (e.op = "Buf" => e.before = e.after)
     \* seeds handed out by separate calls share no storage, and what a caller does to its seed (wiping it) does not
     \* change what the next call with the same arguments returns
@@ -267,7 +271,7 @@ Holds(p, e) ==
       [] p = "C04" -> Inv_C04(e) [] p = "C05" -> Inv_C05(e) [] p = "C06" -> Inv_C06(e)
       [] p = "C07" -> Inv_C07(e) [] p = "C08" -> Inv_C08(e) [] p = "C09" -> Inv_C09(e)
       [] p = "C10" -> Inv_C10(e) [] p = "C11" -> Inv_C11(e) [] p = "C13" -> Inv_C13(e)
-      [] p = "C14" -> Inv_C14(e) [] p = "C15" -> Inv_C15(e) /\ InvR_C15(e) /\ InvS_C15(e) /\ InvN_C15(e) [] p = "C16" -> Inv_C16(e)
+      [] p = "C14" -> Inv_C14(e) [] p = "C15" -> Inv_C15(e) /\ InvR_C15(e) /\ InvS_C15(e) /\ InvN_C15(e) /\ InvE_C15(e) [] p = "C16" -> Inv_C16(e)
       [] p = "C17" -> Inv_C17(e) [] p = "C12" -> Inv_C12(e) [] p = "XNFKD" -> Inv_XNFKD(e) [] OTHER -> TRUE
 KnownF(p, e) == (p = "C04" /\ KF_C04(e)) \/ (p = "C11" /\ KF_C11(e))
 
